@@ -32,7 +32,14 @@ class BuckGophermapHandler(BaseHandler):
                 and stat.S_ISREG(self.statresult[stat.ST_MODE])
                 and self.getselector().endswith(".gophermap")
             ):
+                # A stand-alone map is served as a menu (isdir() is true), so
+                # it is announced as one: menu type, menu MIME type, and no
+                # size -- the size of the map file is not the size of the
+                # listing made from it.
+                self.entry.settype("1")
+                self.entry.setmimetype("application/gopher-menu")
                 self.entry.populatefromvfs(self.vfs, self.getselector())
+                self.entry.size = None
             else:
                 self.entry.populatefromfs(
                     self.getselector(), self.statresult, vfs=self.vfs
